@@ -29,6 +29,8 @@ type c08Exchange struct {
 	cut      bool
 	ended    bool // the server ended the response
 	n        int
+	// breakAfter > 0: the connection breaks once that many events have arrived
+	breakAfter int
 }
 
 type c08Op struct {
@@ -44,6 +46,8 @@ func c08Ops() []c08Op {
 	}
 	ops = append(ops, c08Op{kind: "resume2", name: "a second, concurrent resume with the latest id"})
 	ops = append(ops, c08Op{kind: "purge", name: "memory pressure: the event store evicts what it can"})
+	ops = append(ops, c08Op{kind: "resume-broken", k: 0, name: "client resumes with the id of event #0 over a connection that breaks after the first replayed event"})
+	ops = append(ops, c08Op{kind: "resume-store-fault", k: 0, name: "client resumes with the id of event #0 while the event store fails that one read"})
 	return ops
 }
 
@@ -105,6 +109,7 @@ func c08InBubble(o c08Opts, ops []c08Op, hist []int) verifx.SearchResult {
 		}
 	}()
 	var exchanges []*c08Exchange
+	breakNext := 0
 	open := func(method, body, sid, lastID string) (*c08Exchange, error) {
 		cctx, cancel := context.WithCancel(ctx)
 		var rd io.Reader
@@ -123,7 +128,8 @@ func c08InBubble(o c08Opts, ops []c08Op, hist []int) verifx.SearchResult {
 		if lastID != "" {
 			req.Header.Set("Last-Event-ID", lastID)
 		}
-		x := &c08Exchange{cancel: cancel, n: len(exchanges), startIdx: -1}
+		x := &c08Exchange{cancel: cancel, n: len(exchanges), startIdx: -1, breakAfter: breakNext}
+		breakNext = 0
 		exchanges = append(exchanges, x)
 		go func() {
 			// like a real client, this blocks until the server sends the response headers,
@@ -139,6 +145,12 @@ func c08InBubble(o c08Opts, ops []c08Op, hist []int) verifx.SearchResult {
 					return
 				}
 				x.events = append(x.events, c08Event{id: evt.ID, name: evt.Name, data: string(evt.Data)})
+				if x.breakAfter > 0 && len(x.events) >= x.breakAfter {
+					x.cut = true
+					resp.Body.Close()
+					cancel()
+					return
+				}
 			}
 			x.ended = true
 		}()
@@ -291,6 +303,33 @@ func c08InBubble(o c08Opts, ops []c08Op, hist []int) verifx.SearchResult {
 			}
 			attached = nil
 			obs = "cut"
+		case "resume-broken", "resume-store-fault":
+			// a resume that fails half way must not spoil the stream for later resumes
+			if streamKey == "" {
+				streamKey = findKey()
+			}
+			if streamKey == "" || (attached != nil && !attached.ended && !attached.cut) {
+				return verifx.SearchResult{Skip: true}
+			}
+			ids := issuedIDs()
+			if op.k >= len(ids) || len(ids)-op.k < 3 {
+				return verifx.SearchResult{Skip: true} // at least two events to replay
+			}
+			if op.kind == "resume-broken" {
+				breakNext = 1
+			} else {
+				store.failNextRead = true
+			}
+			x, err := open("GET", "", sid, ids[op.k])
+			store.failNextRead = false
+			if err != nil {
+				return bad("resume-failed", "%s: %v", where, err)
+			}
+			x.startIdx = op.k
+			x.cut = true // whatever arrived is a prefix; nothing more is owed to this exchange
+			x.cancel()
+			attached = nil
+			obs = op.kind
 		case "resume", "resume2":
 			if streamKey == "" {
 				streamKey = findKey()
